@@ -23,6 +23,7 @@ Record creq := {
   q_ctx : wctx;
   q_acct : N;
   q_scope : option kscope;
+  q_change_scope : option kscope;    (* WithCustomChangeScope / FundPsbt's change scope; None = not given *)
   q_minconf : Z;
   q_rate : Z;
   q_strategy : strategy;
@@ -35,7 +36,9 @@ Record creq := {
 }.
 
 Definition request_of (q : creq) : request :=
-  {| r_acct := q_acct q; r_scope := q_scope q; r_minconf := q_minconf q; r_rate := q_rate q;
+  {| r_acct := q_acct q; r_scope := q_scope q;
+     r_change_scope := match q_change_scope q with Some c => Some c | None => q_scope q end;
+     r_minconf := q_minconf q; r_rate := q_rate q;
      r_strategy := q_strategy q; r_explicit := q_explicit q;
      r_allow := fun u => match q_allow q with
                          | None => true
